@@ -313,6 +313,8 @@ fn doc_parse(query: &str) -> Option<Doc> {
 struct Quirks { community_dead: bool, less_skips_zero: bool, mcast_fallback: bool, more_observed: bool }
 /// The raw more-specifics answers of the unicast and the multicast store.
 type StoreMore = (Vec<Pfx>, Vec<Pfx>);
+/// Bit set of the deviations (community, lesszero, mcast) confirmed on this tree by witness replay.
+static ADMISSIBLE: std::sync::atomic::AtomicU8 = std::sync::atomic::AtomicU8::new(7);
 
 fn kind_matches(pop: &Pop, r: &Rec, k: &Kind, q: Quirks) -> bool {
     match k {
@@ -378,13 +380,22 @@ fn judge(pop: &Pop, path: &str, query: &str, obs: &Obs, sm: &StoreMore) -> Strin
                 let got = (data.clone(), less.clone(), more.clone());
                 let (e0, e1, e2) = expected(pop, &qp, d, Quirks::default(), sm);
                 if got == (e0.clone(), e1.clone(), e2.clone()) { return "ok".into(); }
-                // classify: the smallest set of known deviations that explains the answer exactly
+                // classify: the smallest set of known deviations that explains the answer exactly.
+                // Only deviations whose witness reproduced on this tree are admissible, and the
+                // more-specifics deviation is not guessed but observed (the store's raw answer).
+                let adm = ADMISSIBLE.load(std::sync::atomic::Ordering::Relaxed);
+                let contract: BTreeSet<(bool, Pfx)> = pop.recs.iter().filter(|r| r.pfx != qp && qp.covers(&r.pfx)).map(|r| (r.mc, r.pfx)).collect();
+                let observed: BTreeSet<(bool, Pfx)> = sm.0.iter().map(|p| (false, *p)).chain(sm.1.iter().map(|p| (true, *p))).collect();
+                let more_active = d.more && contract != observed;
                 let names = ["community-filter:never-matches", "less-specifics:default-route-omitted", "multicast:hidden-unless-unicast-answer-empty", more_name];
                 let mut best: Option<Vec<usize>> = None;
-                for mask in 1u8..16 {
-                    let q = Quirks { community_dead: mask & 1 != 0, less_skips_zero: mask & 2 != 0, mcast_fallback: mask & 4 != 0, more_observed: mask & 8 != 0 };
+                for mask in 0u8..8 {
+                    if mask & !adm != 0 { continue; }
+                    if mask == 0 && !more_active { continue; }
+                    let q = Quirks { community_dead: mask & 1 != 0, less_skips_zero: mask & 2 != 0, mcast_fallback: mask & 4 != 0, more_observed: more_active };
                     if got == expected(pop, &qp, d, q, sm) {
-                        let set: Vec<usize> = (0..4).filter(|i| mask & (1 << i) != 0).collect();
+                        let mut set: Vec<usize> = (0..3).filter(|i| mask & (1 << i) != 0).collect();
+                        if more_active { set.push(3); }
                         if best.as_ref().is_none_or(|b| set.len() < b.len()) { best = Some(set); }
                     }
                 }
@@ -604,12 +615,14 @@ fn main() {
     let has = |o: &Option<(Obs, StoreMore)>, aid: u32, sec: u8| -> bool {
         match o { Some((Obs::Json { data, less, .. }, _)) => (if sec == 0 { Some(data) } else { less.as_ref() }).is_some_and(|s| s.iter().any(|e| e.3 == aid)), _ => false }
     };
+    let mut adm = 0u8;
     let o = replay_line(&rt, &mut rec, W_COMMUNITY);
-    rec.variant("community", if has(&o, 1, 0) { "repaired" } else { "as-written" });
+    rec.variant("community", if has(&o, 1, 0) { "repaired" } else { adm |= 1; "as-written" });
     let o = replay_line(&rt, &mut rec, W_LESSZERO);
-    rec.variant("lesszero", if has(&o, 1, 1) { "repaired" } else { "as-written" });
+    rec.variant("lesszero", if has(&o, 1, 1) { "repaired" } else { adm |= 2; "as-written" });
     let o = replay_line(&rt, &mut rec, W_MCAST);
-    rec.variant("mcast", if has(&o, 2, 0) { "repaired" } else { "as-written" });
+    rec.variant("mcast", if has(&o, 2, 0) { "repaired" } else { adm |= 4; "as-written" });
+    ADMISSIBLE.store(adm, std::sync::atomic::Ordering::Relaxed);
     // the store reports 151.7.128.0/18 (a child of the sibling /17) as a more-specific of 151.7.0.0/17
     let o = replay_line(&rt, &mut rec, W_MORE);
     rec.variant("more", if o.is_some_and(|(_, sm)| sm.0.is_empty() && sm.1.is_empty()) { "contract" } else { "as-observed" });
